@@ -71,14 +71,23 @@ def _history(rng, npop, rounds):
   hist = []
   for r in range(rounds):
     k = rng.choice([1, 2, 2, 3])
-    hist.append(sorted(rng.sample(range(npop), k)))
+    hist.append(rng.sample(range(npop), k))        # cohort ids NOT in sorted order
   # force re-participation: the first round's first client comes back later
   if hist[0][0] not in hist[-1]:
-    hist[-1] = sorted(set(hist[-1]) | {hist[0][0]})
+    hist[-1] = hist[-1] + [hist[0][0]]
   return hist
 
 
 def generate(tier, rng):
+  yield from _generate_base(tier, rng)
+  if tier != 'search':       # the same clauses under non-default global JAX flags, each in its own process
+    from lib import c10c17_flags as flagrun
+    for flag, value in (flagrun.FLAGS_QUICK if tier == 'quick' else flagrun.FLAGS_THOROUGH):
+      yield {'name': 'flags', 'flag': flag, 'value': value, 'seed': rng.randrange(1000), 'hp': {}, 'rounds': [], 'pop': [],
+             'names': ['uniform', 'apfl'] if tier == 'quick' else ['fed_avg', 'agnostic', 'hyp_cluster', 'apfl', 'rotated', 'uniform_arith']}
+
+
+def _generate_base(tier, rng):
   reps = {'quick': 6, 'thorough': 16, 'search': 16}[tier]
   for name in ALGS + AGGS:
     for hp in _hp_grid(name, tier, rng):
@@ -86,16 +95,21 @@ def generate(tier, rng):
         rounds = rng.choice([4, 5]) if tier == 'quick' else rng.choice([4, 5, 6])
         hist = _history(rng, len(_POP), rounds)
         if i == 0:      # hand-made: the empty client participates; a client repeats in consecutive rounds; an EMPTY cohort
-          hist = [[0, 4], [0, 1], [], [2, 4], [0, 1, 3]] + hist[5:]
+          hist = [[4, 0], [1, 0], [], [2, 4], [3, 0, 1]] + hist[5:]
         forms = _FORMS[i % len(_FORMS)]
         if name in AGGS:
           forms = dict(forms, clients=['list', 'gen', 'tuple', 'iter'][i % 4], dtype=['float32', 'float16', 'float32', 'bfloat16'][i % 4])
         hp_i = dict(hp)
+        if name in ('fed_avg', 'fed_prox', 'hyp_cluster') and i % 6 == 4:
+          hp_i['sopt'] = 'ign'        # a wrapped (composed) server optimizer
+        pop = _POP
+        if name not in AGGS and i % 6 == 5:
+          pop = [dict(s, nan=(j == 2)) for j, s in enumerate(_POP)]     # client 2 holds a NaN label
         if name not in AGGS and tier != 'quick' and i % 8 in (3, 7):
           hp_i['backend'] = 'debug' if i % 8 == 3 else 'pmap'
         if name in ('fed_avg', 'apfl') and tier == 'quick' and i == 3:
           hp_i['backend'] = 'debug' if name == 'fed_avg' else 'pmap'
-        yield {'name': name, 'hp': hp_i, 'pop': _POP, 'rounds': hist, 'branch': len(hist) - 3, 'seed': rng.randrange(1000),
+        yield {'name': name, 'hp': hp_i, 'pop': pop, 'rounds': hist, 'branch': len(hist) - 3, 'seed': rng.randrange(1000),
                'ser': 'file' if (i % 2 == 1) else 'pickle', 'fresh': i == 1 or (tier != 'quick' and i % 4 == 1),
                'forms': forms, 'nojit': tier != 'quick' and i % 8 == 5}
 
@@ -104,6 +118,7 @@ def generate(tier, rng):
 # rng as jax / numpy array, aggregator weights as float / numpy scalar / 0-d jax array / with an exact 0 and a
 # total below 1, positional or keyword call
 _FORMS = [
+    {'clients': 'list', 'ids': 'int0', 'rng': 'jax', 'w': 'float', 'kw': False},
     {'clients': 'list', 'ids': 'bytes', 'rng': 'jax', 'w': 'float', 'kw': False},
     {'clients': 'tuple', 'ids': 'str', 'rng': 'np', 'w': 'np', 'kw': True},
     {'clients': 'list', 'ids': 'bytes0', 'rng': 'jax', 'w': 'jnp', 'kw': False},
@@ -123,7 +138,7 @@ def _slots(name, state):
     return [('l', list(state.cluster_params)), ('l', list(state.opt_states))]
   if name == 'apfl':
     return [('a', [state.params]), ('a', [state.opt_state]),
-            ('d', [state.client_states[k] for k in sorted(state.client_states)])]
+            ('d', [state.client_states[k] for k in sorted(state.client_states, key=tiny.cid_index)])]
   return [('a', [state.num_bits]), ('a', [state.rng])]     # aggregators (num_bits: Python float, always 'new')
 
 
@@ -265,11 +280,15 @@ def _rng_path(root, key, depth):
   return -1
 
 
-def _same_out(o, s, d):
-  return tiny.same_snapshot(o[0], tiny.snapshot(s)) and tiny.same_snapshot(o[1], tiny.snapshot(d))
+def _same_out(o, s, d, values_only=False):
+  same = tiny.same_values if values_only else tiny.same_snapshot
+  return same(o[0], tiny.snapshot(s)) and same(o[1], tiny.snapshot(d))
 
 
 def run(case):
+  if case['name'] == 'flags':
+    from lib import c10c17_flags as flagrun
+    return flagrun.run('c10', case['flag'], case['value'], case['names'], case['seed'])
   name, hp = case['name'], case['hp']
   is_agg = name in AGGS
   make = (lambda fresh=False: tiny.aggregator(name, hp, fresh)) if is_agg else (lambda fresh=False: tiny.algorithm(name, hp, fresh))
@@ -356,14 +375,14 @@ def run(case):
       if restored is not None:
         try:
           rs, rd = _call(name, obj, restored, clients, is_agg)
-          post.append(_same_out(o1, rs, rd))
+          post.append(_same_out(o1, rs, rd, True))
           restored = rs
         except Exception:     # arguments destroyed by the first call
           post.append(False)
       state = s1
       if r == case['branch']:
         restored = _serialise(state, case.get('ser', 'pickle'))
-        post.append(tiny.same_snapshot(tiny.snapshot(state), tiny.snapshot(restored)))
+        post.append(tiny.same_values(tiny.snapshot(state), tiny.snapshot(restored)))
     # every result the caller kept is still what it was when it was returned
     obs['kept_same'] = all(_same_out(o, s, d) and tiny.count_deleted(s) + tiny.count_deleted(d) == 0 for o, (s, d) in zip(outs, kept))
     # another object built in the same process from the same loss / grad functions with other hyper-parameters,
@@ -420,7 +439,7 @@ def run(case):
           cur = _serialise(states[b], case.get('ser', 'pickle'))
           for r in range(b, nr):
             cur, dd = _call(name, obj2, cur, clients_of(r), is_agg)
-            obs['fresh_same'] &= _same_out(outs[r], cur, dd)
+            obs['fresh_same'] &= _same_out(outs[r], cur, dd, True)
         except Exception as ex:
           obs['fresh_same'] = False
           obs['fresh_err'] = type(ex).__name__ + ': ' + str(ex)[:120]
@@ -435,6 +454,10 @@ def run(case):
 def oracle(case, obs):
   n = case['name']
   out = []
+  if n == 'flags':
+    if obs['err']:
+      return [('flags.harness-failed', f'{case["flag"]}={case["value"]}: {obs["err"]}')]
+    return [(k, f'under {case["flag"]}={case["value"]}: {w}') for _, vs in obs['results'] for k, w in vs]
   if obs['err']:
     if obs.get('err_empty_cohort'):
       return [(n + '.empty-cohort-raises', f'{n}: apply() on an empty client selection raised {obs["err"]}')]
@@ -494,8 +517,10 @@ def _slot_desc(kind, row, keys):
 
 
 def encode(case, obs):
-  if obs['err'] or case['hp'].get('backend'):
-    return None     # the scripts model the jit backend of for_each_client (gen/Gen_for_each_client.v: jit_*); debug / pmap: oracle only
+  if case['name'] == 'flags':
+    return None
+  if obs['err'] or case['hp'].get('backend') or case['hp'].get('sopt') == 'ign':
+    return None     # the scripts model the jit backend of for_each_client (gen/Gen_for_each_client.v: jit_*); debug / pmap, and the ignore-grads server optimizer (which hands the ignored leaf back as the very input object): oracle only
   name = case['name']
   init = fw.clist([_slot_desc(k, row, []) for k, row in obs['init']])
   rounds, robs = [], []
@@ -512,6 +537,8 @@ def encode(case, obs):
 
 
 def nontrivial(case, obs):
+  if case['name'] == 'flags':
+    return bool(obs['results'])
   seen, rep = set(), False
   for sel in case['rounds']:
     rep |= bool(seen & set(sel))
@@ -520,6 +547,8 @@ def nontrivial(case, obs):
 
 
 def describe(case, obs):
+  if case['name'] == 'flags':
+    return {'name': 'flags', 'flag': case['flag']}
   return {'name': case['name'], 'rounds': len(case['rounds']), 'serialiser': case.get('ser', 'pickle'),
           'max_clients_per_round': max(len(s) for s in case['rounds'])}
 
